@@ -140,7 +140,6 @@ static const int block_relax[] = {SPAI0, JACOBI, GS, ILU0, ILUK, ILUP, CHEB, ILU
 static void prop_cycle_block(Tape &t, Ctx &c) {
     // ---- matrix
     int fam = static_cast<int>(t.u(0, 2)); // 0 reblocked, 1 blocklap, 2 kron
-    if (getenv("FORCE_FAM")) fam = atoi(getenv("FORCE_FAM"));
     GenMat gm = fam == 0 ? gen_mmat_case(t, {0, 1, 1, 2, 2, 3}, {2, 12, 40, 80}, {12, 40, 80, 140}, 100.0, true)
                          : gen_mmat_case(t, {0, 1, 1, 2, 2, 3}, {1, 6, 20, 40}, {6, 20, 40, 70}, 100.0, true);
     Csr<blk> A; std::string kind;
@@ -198,7 +197,7 @@ static void prop_cycle_block(Tape &t, Ctx &c) {
 
     // ---- configuration
     AmgCfg cfg;
-    cfg.coars = block_coars[t.pick(3)]; if (getenv("NO_EMIN") && cfg.coars == EMIN) cfg.coars = SA; if (getenv("FORCE_EMIN")) cfg.coars = EMIN;
+    cfg.coars = block_coars[t.pick(3)];
     cfg.relax = block_relax[t.pick(8)];
     int ce_mode = static_cast<int>(t.u(0, 7));
     cfg.coarse_enough = ce_mode == 0 ? static_cast<unsigned>(nb) : ce_mode <= 5 ? static_cast<unsigned>(t.u(1, 6)) : static_cast<unsigned>(t.u(1, std::max<ptrdiff_t>(1, nb / 3)));
@@ -218,7 +217,13 @@ static void prop_cycle_block(Tape &t, Ctx &c) {
 
     ptree prm; cfg.put_amg(prm, "");
     auto Acrs = to_crs<blk>(A);
-    std::unique_ptr<BAmg> amg(new BAmg(*Acrs, prm));
+    std::unique_ptr<BAmg> amg;
+    try { amg.reset(new BAmg(*Acrs, prm)); }
+    catch (const std::runtime_error &e) {
+        // emin on general blocks (F-emin-block-adjoint, below) can produce a singular coarsest matrix: the direct solver refuses it
+        if (cfg.coars == EMIN && fam != 2) { c.label(std::string("setup-threw:") + e.what()); if (c.known("F-emin-block-adjoint")) return; }
+        throw;
+    }
     const size_t levels = amgcl_verif::access::nlevels(*amg);
     bool direct = false; amgcl_verif::access::for_levels(*amg, [&](size_t, const auto *, bool solve, bool, bool) { if (solve) direct = true; });
 
@@ -242,13 +247,13 @@ static void prop_cycle_block(Tape &t, Ctx &c) {
     // For block values that do not commute / are not symmetric (Omega^T != Omega, D^-T != D^-1: weak blocks A_IJ are lumped into
     // D) R is not the adjoint of P, so the cycle is not symmetric (max|B - B^T| = O(1e-2 .. 1) max|B|) and the variational
     // argument for positivity / contraction does not apply.  Region: emin, >= 2 levels, non-commuting block values
-    // (families reblocked, blocklap); linearity, history independence and scaling are asserted inside it.
+    // (families reblocked, blocklap).
     const bool emin_adjoint_region = cfg.coars == EMIN && levels >= 2 && fam != 2;
-    // With general (non-symmetric) off-diagonal blocks (family reblocked) the block-valued quotient omega = (AP,ADAP)/(ADAP,ADAP)
-    // is not even a ratio of norms: the transfer operators are arbitrary, huge and mutually cancelling (the cycle is applied
-    // with a relative error of 1e-10 instead of 1e-16, linearity is off by 240 x the rounding bound) or NaN.  Nothing is
-    // asserted for that family; for symmetric non-commuting blocks (blocklap) only symmetry / positivity / contraction are excluded.
-    if (emin_adjoint_region && fam == 0) { c.label("emin:general-blocks"); if (c.known("F-emin-block-adjoint")) return; }
+    // The block-valued quotient omega = (AP,ADAP)/(ADAP,ADAP) is then not a ratio of norms either: with general off-diagonal
+    // blocks (reblocked) the transfer operators are arbitrary, huge and mutually cancelling (linearity off by 240 x the
+    // rounding bound) or NaN, with symmetric non-commuting blocks (blocklap) a NaN hierarchy was seen once in 2e5 cases.
+    // Nothing is asserted inside the region.
+    if (emin_adjoint_region) { c.label("emin:non-commuting-blocks"); if (c.known("F-emin-block-adjoint")) return; }
 
     // ---- B, history independence
     std::vector<bvec> fb = pack(f), x0(nb), x1(nb);
@@ -259,13 +264,6 @@ static void prop_cycle_block(Tape &t, Ctx &c) {
     amg->apply(fb, x1);
     { std::vector<double> a = unpack(x0), b = unpack(x1);
       for (ptrdiff_t i = 0; i < n; ++i) VF_REQUIRE(std::memcmp(&a[i], &b[i], sizeof(double)) == 0, "history dependence: apply(f)[" << i << "] was " << a[i] << " on the fresh hierarchy and " << b[i] << " after " << n << " unrelated applies"); }
-    if (env_flag("VF_C02_TRACE") && !all_finite(B)) {
-        amgcl_verif::access::for_level_objects(*amg, [&](const auto &l) {
-            std::cerr << "TRACE level rows=" << l.rows() << " A=" << (bool)l.A << " P=" << (bool)l.P << " solve=" << (bool)l.solve << " relax=" << (bool)l.relax << "\n";
-            if (l.A && l.rows() <= 4) for (size_t i = 0; i < l.A->nrows; ++i) for (ptrdiff_t j = l.A->ptr[i]; j < l.A->ptr[i + 1]; ++j) std::cerr << "  A(" << i << "," << l.A->col[j] << ")=" << l.A->val[j] << "\n";
-            if (l.P && l.rows() <= 4) for (size_t i = 0; i < l.P->nrows; ++i) for (ptrdiff_t j = l.P->ptr[i]; j < l.P->ptr[i + 1]; ++j) std::cerr << "  P(" << i << "," << l.P->col[j] << ")=" << l.P->val[j] << "\n";
-        });
-    }
     VF_REQUIRE(all_finite(B), "cycle operator has non-finite entries");
 
     Mat Ad = to_eigen(As);
@@ -283,7 +281,16 @@ static void prop_cycle_block(Tape &t, Ctx &c) {
     bool coarsest_psd = direct || (cfg.relax != GS && (cfg.npre + cfg.npost) % 2 == 0) || (cfg.relax == GS && cfg.npre == cfg.npost);
     bool fagg_provable = coarsest_psd && ((cfg.ncycle >= 2 && ov < 2.0) || std::pow(ov, static_cast<double>(levels) - 1.0) < 2.0);
     bool fagg_region = cfg.coars == AGG && ov > 1.0 && levels >= 2 && !fagg_provable;
-    const double rcf = fagg_region ? 32.0 : 1.0;
+    // block algebra: products / inverses of 2x2 blocks carry rounding errors proportional to the conditioning of the blocks
+    // (emin on A (x) S with cond(S) ~ 20: asymmetry 170 x the scalar bound); the constants scale with the square of the
+    // worst 2-norm condition number of a diagonal block
+    double kblk = 1;
+    for (ptrdiff_t i = 0; i < A.n; ++i) for (ptrdiff_t j = A.ptr[i]; j < A.ptr[i + 1]; ++j) if (A.col[j] == i) {
+        Eigen::Matrix2d M; M << A.val[j](0, 0), A.val[j](0, 1), A.val[j](1, 0), A.val[j](1, 1);
+        Eigen::JacobiSVD<Eigen::Matrix2d> svd(M); kblk = std::max(kblk, svd.singularValues()(0) / svd.singularValues()(1));
+    }
+    c.label(bucket(kblk, {2, 10, 100}, "block-cond"));
+    const double rcf = (fagg_region ? 32.0 : 1.0) * kblk * kblk;
 
     // ---- linearity
     {
@@ -299,14 +306,13 @@ static void prop_cycle_block(Tape &t, Ctx &c) {
         double scale = (16.0 + static_cast<double>(n) + kappa) * U * Bn * (std::abs(alpha) * norm2(f) + std::abs(beta) * norm2(gq));
         double ratio = scale > 0 ? err / scale : (err > 0 ? 1e300 : 0);
         c.label(bucket(ratio, {0.01, 0.1, 1, 4}, "lin-ratio"));
-        if (env_flag("VF_C02_TRACE") && ratio > 1) std::cerr << "TRACE lin ratio=" << ratio << " n=" << n << " kappa=" << kappa << " " << kind << " levels=" << levels << " " << cfg.str() << "\n";
         VF_REQUIRE(ratio <= 32.0 * rcf, "not linear: ||apply(a f + b g) - (a B f + b B g)|| = " << err << " = " << ratio << " x (16 + n + kappa2(A)) u ||B||_F (|a|||f||+|b|||g||), n=" << n << " kappa2(A)=" << kappa);
     }
 
     // ---- symmetry; positivity / contraction computed here, asserted last (see c02_cycle.cpp)
     bool symlist = cfg.relax != ILUT;
     double rho = -1, bmin = 1, bmax = 1;
-    if (symlist && !(emin_adjoint_region && !c.include_known)) {
+    if (symlist) {
         if (cfg.npre == cfg.npost) {
             double asym = (B - B.transpose()).cwiseAbs().maxCoeff();
             double sratio = asym / ((16.0 + static_cast<double>(n) + kappa) * U * Bmax);
@@ -337,7 +343,6 @@ static void prop_cycle_block(Tape &t, Ctx &c) {
     }
 
     // ---- positivity and contraction, last
-    if (symlist && emin_adjoint_region) { if (c.known("F-emin-block-adjoint")) return; }
     if (symlist) {
         if (fagg_region) { c.label(rho < 1 ? "F-agg-region:rho<1" : "F-agg-region:rho>=1"); if (c.known("F-agg")) return; }
         if (cfg.relax != GS) {
@@ -352,6 +357,6 @@ static void prop_cycle_block(Tape &t, Ctx &c) {
     }
 }
 
-static std::vector<Prop> props() { return { Prop("cycle_operator_block", prop_cycle_block, 1500, 15000, 100, 2, {1}, 4, 16) }; }
+static std::vector<Prop> props() { return { Prop("cycle_operator_block", prop_cycle_block, 3000, 30000, 100, 2, {1}, 4, 16) }; }
 static std::vector<Enum> enums() { return {}; }
 VF_MAIN(props(), enums())
